@@ -19,10 +19,10 @@ func init() {
 		Prop:  "C19",
 		Title: "Date-time functions preserve the instant and invert each other",
 		Explanation: "Scope: the functions of the custom-function packages in which a time.Time value occurs. " +
-			"R19a no partial primitive: every epoch-extracting method call on time.Time is inventoried; (time.Time).UnixNano (undefined outside years 1678-2262) is rejected unless its receiver derives from time.Now() only; " +
-			"R19b no overflowing arithmetic between instant and epoch number: in every function that converts between time.Time and an epoch number, each integer *, +, -, << is checked by interval analysis over SSA (strconv.Parse* results span their full type, (time.Time).Unix() spans the property's domain years 0-9999 +- 1 day, Nanosecond() is [0,1e9), %, / and comparison guards against constants narrow) and must not be able to leave its type; " +
+			"R19a no partial primitive: every epoch-extracting method call on time.Time is inventoried; (time.Time).UnixNano (undefined outside years 1678-2262) and instant differences ((time.Time).Sub, time.Since, time.Until: time.Duration saturates at +-292 years) are rejected unless their operands derive from time.Now() only; " +
+			"R19b no overflowing arithmetic between instant and epoch number: in every function that converts between time.Time and an epoch number, each integer *, +, -, << is checked by interval analysis over SSA (strconv.Parse* results span their full type, (time.Time).Unix() spans the property's domain years 0-9999 +- 1 day, Nanosecond() is [0,1e9), %, / and comparison guards against constants narrow) and must not be able to leave its type; a time.Unix(x/k, ns) call must derive ns from x%k of the same x and k (no truncation of the epoch number); " +
 			"R19c error-out / empty-in: every call that yields (value, error) has its error tested, no use of the value is reachable before the test or on the non-nil edge, every return reachable from the non-nil edge carries a non-nil error, every return with a non-nil error carries only zero values (never a formatted time), and every exported function returns (\"\", nil) on the `input == \"\"` edge, which dominates the parse of that input; " +
-			"R19d unit dispatch is closed: each chain of comparisons of a string parameter against unit constants has exactly the cases SECOND and MILLISECOND, both conversion directions use the same set, and the all-false edge returns (\"\", non-nil error).",
+			"R19d unit dispatch is closed: the conversion functions are run abstractly with the unit parameter fixed to each constant it is compared with and to none of them: the constants are exactly SECOND and MILLISECOND, each is accepted on some path, both directions use the same set, and with an unknown unit every return after the first comparison is (\"\", non-nil error).",
 		NotDecided: "whether the instant is preserved: the layouts of the smart parser, overwrite-vs-convert zone logic, DST and leap handling are delegated to time and go-corelib/times; the scale factors themselves (1000, 1e6) are not related to the unit names; epoch strings outside the int64 seconds that time.Unix can represent.",
 		Trusted: append([]string{"time.Parse / times.SmartParse only produce years 0-9999 (the property's domain), so (time.Time).Unix() of a parsed value lies in [-62167305600, 253402387199]",
 			"(time.Time).Unix, UnixMilli, UnixMicro, Nanosecond and time.Unix are total on that domain; (time.Time).UnixNano is not"}, commonTrusted...),
@@ -31,9 +31,15 @@ func init() {
 	control(Control{ID: "c19-unixnano-reintroduced", Prop: "C19", File: "customfuncs/datetime.go",
 		Old: "t.Unix()*1000+int64(t.Nanosecond())/int64(time.Millisecond)", New: "t.UnixNano()/int64(time.Millisecond)",
 		Rule: "R19a", Substr: "DateTimeToEpoch", Why: "F11 re-introduced: UnixNano overflows outside 1678-2262"})
+	control(Control{ID: "c19-duration-since-epoch", Prop: "C19", File: "customfuncs/datetime.go",
+		Old: "t.Unix()*1000+int64(t.Nanosecond())/int64(time.Millisecond)", New: "t.Sub(time.Unix(0, 0)).Milliseconds()",
+		Rule: "R19a", Substr: "Time.Sub", Why: "Duration saturates at +-292 years: wrong epoch outside 1678-2262"})
 	control(Control{ID: "c19-scaling-reintroduced", Prop: "C19", File: "customfuncs/datetime.go",
 		Old: "t = time.Unix(n/1000, (n%1000)*int64(time.Millisecond))", New: "t = time.Unix(0, n*int64(time.Millisecond))",
 		Rule: "R19b", Substr: "EpochToDateTimeRFC3339", Why: "F11 re-introduced: n*1e6 overflows int64 outside 1678-2262"})
+	control(Control{ID: "c19-remainder-dropped", Prop: "C19", File: "customfuncs/datetime.go",
+		Old: "t = time.Unix(n/1000, (n%1000)*int64(time.Millisecond))", New: "t = time.Unix(n/1000, 0)",
+		Rule: "R19b", Substr: "time.Unix split", Why: "sub-second part dropped: pre-1970 instants with a fraction move to the next second"})
 	control(Control{ID: "c19-formatted-time-on-error", Prop: "C19", File: "customfuncs/datetime.go",
 		Old:  "\tif err != nil {\n\t\treturn \"\", err\n\t}\n\tswitch unit {\n\tcase epochUnitMilliseconds:",
 		New:  "\tif err != nil {\n\t\treturn rfc3339(t, false), err\n\t}\n\tswitch unit {\n\tcase epochUnitMilliseconds:",
@@ -175,6 +181,23 @@ func c19Primitives(c *core.Ctx, fns []*ssa.Function) {
 				continue
 			}
 			sig := o.Type().(*types.Signature)
+			// instant differences: time.Duration saturates at +-292 years, so t.Sub(u) / time.Since(t) / time.Until(t)
+			// is a partial primitive on an unbounded instant, whatever Duration accessor is applied afterwards
+			if fn := core.FuncName(o); fn == "Time.Sub" || fn == "Since" || fn == "Until" {
+				key := core.FuncKey(f) + " time." + fn
+				bounded := true
+				for _, a := range ci.Common().Args {
+					if c19IsTime(a.Type()) && !c19FromNowOnly(a, map[ssa.Value]bool{}) {
+						bounded = false
+					}
+				}
+				if bounded {
+					c.OK("R19a", key, core.InstrPos(ci), "difference of instants that derive from time.Now(): far inside +-292 years")
+				} else {
+					c.Bad("R19a", key, core.InstrPos(ci), "the difference of two instants is a time.Duration, which saturates at +-292 years: for instants of the property's domain (years 1-9999) the result, and every Seconds/Milliseconds/Nanoseconds read from it, is wrong outside roughly 1678-2262")
+				}
+				continue
+			}
 			if sig.Recv() == nil || !c19IsTime(sig.Recv().Type()) {
 				continue
 			}
@@ -196,7 +219,7 @@ func c19Primitives(c *core.Ctx, fns []*ssa.Function) {
 			}
 		}
 	}
-	c.Floor("R19a", 3, "t.Unix() x2, t.Nanosecond()")
+	c.Floor("R19a", 2, "epoch extraction in the instant -> epoch direction (t.Unix(), t.Nanosecond())")
 }
 
 // ---------------------------------------------------------------- R19b interval analysis
@@ -533,10 +556,89 @@ func c19Arithmetic(c *core.Ctx, fns []*ssa.Function) {
 			}
 		}
 	}
+	c19Split(c, fns)
 	if nEpoch < 2 {
 		c.Unresolved("R19b", "epoch conversion functions", fmt.Sprintf("expected both conversion directions, found %d function(s) calling time.Unix*/(time.Time).Unix*", nEpoch))
 	}
-	c.Floor("R19b", 3, "t.Unix()*1000, + ms, (n%1000)*1e6")
+	c.Floor("R19b", 3, "scaling arithmetic of both directions, time.Unix split")
+}
+
+// c19Split: an epoch number that is divided by a constant to obtain the seconds argument of time.Unix must hand the
+// remainder of the same division to the nanoseconds argument (otherwise the sub-second part is dropped, which also
+// moves instants before 1970 into the next second because / truncates towards zero).
+func c19Split(c *core.Ctx, fns []*ssa.Function) {
+	for _, f := range fns {
+		for _, ci := range core.Calls(f) {
+			if !core.IsCallTo(ci, "time", "Unix") || len(ci.Common().Args) != 2 {
+				continue
+			}
+			key := core.FuncKey(f) + " time.Unix split"
+			// divisions on the derivation of the seconds argument
+			type div struct {
+				x ssa.Value
+				k string
+			}
+			var divs []div
+			seen := map[ssa.Value]bool{}
+			var walkSec func(v ssa.Value)
+			walkSec = func(v ssa.Value) {
+				if seen[v] {
+					return
+				}
+				seen[v] = true
+				switch x := v.(type) {
+				case *ssa.Phi:
+					for _, e := range x.Edges {
+						walkSec(e)
+					}
+				case *ssa.Convert:
+					walkSec(x.X)
+				case *ssa.BinOp:
+					if k, ok := x.Y.(*ssa.Const); ok && x.Op == token.QUO && k.Value != nil {
+						divs = append(divs, div{x.X, k.Value.ExactString()})
+					}
+				}
+			}
+			walkSec(ci.Common().Args[0])
+			if len(divs) == 0 {
+				c.OK("R19b", key, core.InstrPos(ci), "seconds argument is not a quotient: nothing is cut off")
+				continue
+			}
+			// remainders on the derivation of the nanoseconds argument
+			rems := map[string]bool{}
+			seen = map[ssa.Value]bool{}
+			var walkNs func(v ssa.Value)
+			walkNs = func(v ssa.Value) {
+				if seen[v] {
+					return
+				}
+				seen[v] = true
+				switch x := v.(type) {
+				case *ssa.Phi:
+					for _, e := range x.Edges {
+						walkNs(e)
+					}
+				case *ssa.Convert:
+					walkNs(x.X)
+				case *ssa.BinOp:
+					if k, ok := x.Y.(*ssa.Const); ok && x.Op == token.REM && k.Value != nil {
+						rems[fmt.Sprintf("%p/%s", x.X, k.Value.ExactString())] = true
+					}
+					walkNs(x.X)
+					walkNs(x.Y)
+				}
+			}
+			walkNs(ci.Common().Args[1])
+			good := true
+			for _, d := range divs {
+				if !rems[fmt.Sprintf("%p/%s", d.x, d.k)] {
+					good = false
+				}
+			}
+			c.Check(good, "R19b", key, core.InstrPos(ci), "seconds = x / k and nanoseconds derive from x % k of the same x and k",
+				"the seconds argument is a quotient x / k but the nanoseconds argument does not derive from x % k: the sub-second part of the epoch is dropped (and instants before 1970 with a fractional part land in the next second)")
+		}
+	}
 }
 
 // ---------------------------------------------------------------- R19c
@@ -814,6 +916,32 @@ func c19ErrorEdges(c *core.Ctx, fns []*ssa.Function) {
 					}
 				}
 			}
+			// len(p) == 0 and its variants
+			for _, u := range core.Referrers(p) {
+				lc, ok := u.(*ssa.Call)
+				if !ok {
+					continue
+				}
+				if bi, ok := lc.Call.Value.(*ssa.Builtin); !ok || bi.Name() != "len" {
+					continue
+				}
+				for _, uu := range core.Referrers(lc) {
+					bo, ok := uu.(*ssa.BinOp)
+					if !ok {
+						continue
+					}
+					_, zs, okT := a5LenTest(bo, func(v ssa.Value) bool { return v == ssa.Value(lc) })
+					if !okT || zs < 0 {
+						continue
+					}
+					for _, u3 := range core.Referrers(bo) {
+						if ifi, ok := u3.(*ssa.If); ok && test == nil {
+							test = ifi
+							emptySucc = ifi.Block().Succs[zs]
+						}
+					}
+				}
+			}
 			if test == nil {
 				c.Bad("R19c", key, f.Pos(), "no `"+p.Name()+" == \"\"` test: empty input is parsed (and fails) instead of yielding empty output")
 				continue
@@ -853,23 +981,25 @@ func c19ErrorEdges(c *core.Ctx, fns []*ssa.Function) {
 func c19UnitDispatch(c *core.Ctx, fns []*ssa.Function) {
 	type disp struct {
 		f     *ssa.Function
-		p     *ssa.Parameter
 		cases []string
 	}
 	var all []disp
 	for _, f := range fns {
-		if !c19IsEpochFunc(f) {
+		if !c19IsEpochFunc(f) || f.Parent() != nil {
 			continue
 		}
 		res := f.Signature.Results()
+		if res.Len() < 2 || !c19IsError(res.At(res.Len()-1).Type()) {
+			continue
+		}
 		for _, p := range f.Params {
-			// comparisons p == "<non-empty constant>" that decide an If
+			// the Ifs decided by a comparison of p with a non-empty string constant (possibly negated)
 			type cmp struct {
-				ifi  *ssa.If
-				val  string
-				miss *ssa.BasicBlock // successor when p != val
+				val string
+				eq  bool // the true edge means p == val
 			}
-			var cmps []cmp
+			tests := map[*ssa.If]cmp{}
+			caseSet := map[string]bool{}
 			for _, u := range core.Referrers(p) {
 				bo, ok := u.(*ssa.BinOp)
 				if !ok || (bo.Op != token.EQL && bo.Op != token.NEQ) {
@@ -883,86 +1013,117 @@ func c19UnitDispatch(c *core.Ctx, fns []*ssa.Function) {
 				if !ok || k.Value == nil || k.Value.Kind() != constant.String || constant.StringVal(k.Value) == "" {
 					continue
 				}
-				for _, uu := range core.Referrers(bo) {
-					if ifi, ok := uu.(*ssa.If); ok {
-						m := ifi.Block().Succs[1]
-						if bo.Op == token.NEQ {
-							m = ifi.Block().Succs[0]
+				val := constant.StringVal(k.Value)
+				var mark func(v ssa.Value, eq bool, d int)
+				mark = func(v ssa.Value, eq bool, d int) {
+					if d > 3 {
+						return
+					}
+					for _, uu := range core.Referrers(v) {
+						switch y := uu.(type) {
+						case *ssa.If:
+							tests[y] = cmp{val, eq}
+							caseSet[val] = true
+						case *ssa.UnOp:
+							if y.Op == token.NOT {
+								mark(y, !eq, d+1)
+							}
 						}
-						cmps = append(cmps, cmp{ifi, constant.StringVal(k.Value), m})
 					}
 				}
+				mark(bo, bo.Op == token.EQL, 0)
 			}
-			if len(cmps) == 0 {
+			if len(tests) == 0 {
 				continue
 			}
-			key := core.FuncKey(f) + " dispatch on " + p.Name()
-			// the all-false region: follow the miss edges from the comparison that dominates the others
-			byBlock := map[*ssa.BasicBlock]cmp{}
 			var cases []string
-			for _, k := range cmps {
-				byBlock[k.ifi.Block()] = k
-				cases = append(cases, k.val)
+			for k := range caseSet {
+				cases = append(cases, k)
 			}
 			sort.Strings(cases)
-			var head *cmp
-			for i := range cmps {
-				dom := true
-				for j := range cmps {
-					if i != j && !cmps[i].ifi.Block().Dominates(cmps[j].ifi.Block()) {
-						dom = false
+			key := core.FuncKey(f) + " dispatch on " + p.Name()
+			first := f.Pos()
+			for ifi := range tests {
+				if first == f.Pos() || core.InstrPos(ifi) < first {
+					first = core.InstrPos(ifi)
+				}
+			}
+			// abstract run of the function with p fixed to `assign` ("" = none of the constants): the returns
+			// that are reachable after at least one comparison of p has been decided
+			run := func(assign string) []*ssa.Return {
+				type st struct {
+					b      *ssa.BasicBlock
+					passed bool
+				}
+				seen := map[st]bool{}
+				var out []*ssa.Return
+				var walk func(s st)
+				walk = func(s st) {
+					if seen[s] {
+						return
 					}
-				}
-				if dom {
-					head = &cmps[i]
-				}
-			}
-			if head == nil {
-				c.Unknown("R19d", key, f.Pos(), "the unit comparisons do not form one chain")
-				continue
-			}
-			visited := 0
-			cur := head.miss
-			for {
-				k, ok := byBlock[cur]
-				if !ok {
-					break
-				}
-				// only the comparison may live in a chained block
-				visited++
-				cur = k.miss
-				if visited > len(cmps) {
-					break
-				}
-			}
-			if visited != len(cmps)-1 {
-				c.Unknown("R19d", key, core.InstrPos(head.ifi), "the unit comparisons do not form one chain of mutually exclusive cases")
-				continue
-			}
-			all = append(all, disp{f, p, cases})
-			// (1) case set
-			c.Check(strings.Join(cases, ",") == strings.Join(c19Units, ","), "R19d", key+" cases", core.InstrPos(head.ifi),
-				"cases "+strings.Join(cases, ", "), "cases are "+strings.Join(cases, ", ")+", expected exactly "+strings.Join(c19Units, ", "))
-			// (2) default: every return reachable from the all-false block is ("", error)
-			bad, badPos := "", token.NoPos
-			nret := 0
-			for blk := range core.ReachableBlocks(cur, nil) {
-				for _, in := range blk.Instrs {
-					if rt, ok := in.(*ssa.Return); ok {
-						nret++
-						if (core.IsNilConst(rt.Results[res.Len()-1]) || !core.IsZeroConst(rt.Results[0])) && bad == "" {
-							bad, badPos = "an unknown unit does not end in (\"\", error): it is converted as if it were a known unit", core.InstrPos(rt)
+					seen[s] = true
+					last := s.b.Instrs[len(s.b.Instrs)-1]
+					switch x := last.(type) {
+					case *ssa.Return:
+						if s.passed {
+							out = append(out, x)
+						}
+					case *ssa.If:
+						if t, ok := tests[x]; ok {
+							taken := 1
+							if (assign == t.val) == t.eq {
+								taken = 0
+							}
+							walk(st{s.b.Succs[taken], true})
+							return
+						}
+						walk(st{s.b.Succs[0], s.passed})
+						walk(st{s.b.Succs[1], s.passed})
+					default:
+						for _, nx := range s.b.Succs {
+							walk(st{nx, s.passed})
 						}
 					}
 				}
+				walk(st{f.Blocks[0], false})
+				sort.Slice(out, func(i, j int) bool { return out[i].Pos() < out[j].Pos() })
+				return out
 			}
-			if nret == 0 && bad == "" {
-				bad, badPos = "no return after the unit dispatch", f.Pos()
+			last := res.Len() - 1
+			// (1) case set: exactly the documented units, each of which is accepted on some path
+			okCases := strings.Join(cases, ",") == strings.Join(c19Units, ",")
+			why := "cases are " + strings.Join(cases, ", ") + ", expected exactly " + strings.Join(c19Units, ", ")
+			if okCases {
+				for _, cs := range cases {
+					accepted := false
+					for _, rt := range run(cs) {
+						if core.IsNilConst(rt.Results[last]) {
+							accepted = true
+						}
+					}
+					if !accepted {
+						okCases, why = false, "unit "+cs+" is compared against but never converted"
+					}
+				}
+			}
+			c.Check(okCases, "R19d", key+" cases", first, "cases "+strings.Join(cases, ", "), why)
+			all = append(all, disp{f, cases})
+			// (2) default: with a unit that equals none of the constants every return after the dispatch is ("", error)
+			rets := run("")
+			bad, badPos := "", token.NoPos
+			for _, rt := range rets {
+				if (core.IsNilConst(rt.Results[last]) || !core.IsZeroConst(rt.Results[0])) && bad == "" {
+					bad, badPos = "an unknown unit does not end in (\"\", error): it is converted as if it were a known unit", core.InstrPos(rt)
+				}
+			}
+			if len(rets) == 0 {
+				bad, badPos = "no return after the unit dispatch", first
 			}
 			if bad != "" {
 				c.Bad("R19d", key+" default", badPos, bad)
 			} else {
-				c.OK("R19d", key+" default", core.InstrPos(cur.Instrs[0]), "unknown unit returns (\"\", error)")
+				c.OK("R19d", key+" default", core.InstrPos(rets[0]), "unknown unit returns (\"\", error)")
 			}
 		}
 	}
